@@ -280,6 +280,25 @@ def flatten(e, sign=1, out=None):
     return out
 
 
+def _between_args(t):
+    """the arguments of the `.._between(..)` call inside a term"""
+    if t[0] == "call":
+        if "between" in t[1].split("::")[-1]:
+            return list(t[2])
+        for a in t[2]:
+            r = _between_args(a)
+            if r:
+                return r
+    elif t[0] == "bin":
+        return _between_args(t[2]) or _between_args(t[3])
+    elif t[0] == "phi":
+        for a in t[1]:
+            r = _between_args(a)
+            if r:
+                return r
+    return []
+
+
 def tour_delta_signs(ctx, rid):
     """the incrementally maintained figures of a tour: new = old - (what leaves) + (what comes).  Decided per term of the
     +/- tree that feeds new_precomputed: terms about the removed segment / the old depot are subtracted, terms about the new
@@ -336,7 +355,12 @@ def tour_delta_signs(ctx, rid):
                             want = -1 if name != "insert_path" else None
                     elif any("between" in c.split("::")[-1] for c in calls):
                         if name.startswith("replace_"):
-                            want = 1 if 2 in ps else -1
+                            # new depot = the parameter; old depot = read from self (first_node / last_node); anything else is not classified
+                            bargs = _between_args(t)
+                            if any(a == ("param", 2) for a in bargs):
+                                want = 1
+                            elif any(a[0] == "call" and (a[1].endswith("Tour::first_node") or a[1].endswith("Tour::last_node")) for a in bargs):
+                                want = -1
                         elif name == "remove":
                             want = 1            # the dead-head trip that closes the gap
                     elif t[0] == "const" or (t[0] == "phi" and all(a[0] == "const" for a in t[1])):
